@@ -217,7 +217,7 @@ def struct_case(rng, structs, st, cid, prior_mode="comments", break_it=None):
 
 def derive_cases(tier, rng, prefix="d"):
     structs = load_structs()
-    per = {"quick": 220, "search": 600, "thorough": 6000}[tier]
+    per = {"quick": 500, "search": 1200, "thorough": 30000}[tier]
     cases = []
     modes = ["none", "plain", "comments", "comments", "dup", "nofinal"]
     for st in structs["structs"]:
@@ -238,7 +238,7 @@ def derive_cases(tier, rng, prefix="d"):
 
 def malformed_cases(tier, rng, prefix="m"):
     structs = load_structs()
-    per = {"quick": 60, "search": 150, "thorough": 1500}[tier]
+    per = {"quick": 120, "search": 300, "thorough": 6000}[tier]
     cases = []
     kinds = ["missing", "invalid", "invalid", "dupsrc", "case"]
     for st in structs["structs"]:
@@ -262,7 +262,7 @@ def codec_cases(tier, rng, prefix="k"):
     cases = []
     def add(kind, s):
         cases.append((f"{prefix}{len(cases)}", [kind, hexs(s)]))
-    n = {"quick": 4, "search": 4, "thorough": 5}[tier]
+    n = {"quick": 4, "search": 4, "thorough": 6}[tier]
     for k in range(0, n + 1):
         for tup in itertools.product(NUM_ALPHA, repeat=k):
             s = "".join(tup)
@@ -275,7 +275,7 @@ def codec_cases(tier, rng, prefix="k"):
         for kind in ("u8", "u16", "u32", "u64", "i32", "i64"):
             add(kind, s)
     ws_alpha = ["a", "b", " ", "\t", "\n", "\r", " ", " ", "​", "\u0085", "\x0b", "\x0c", "\x1c"]
-    m = {"quick": 4, "search": 4, "thorough": 5}[tier]
+    m = {"quick": 4, "search": 4, "thorough": 6}[tier]
     for k in range(0, m + 1):
         for tup in itertools.product(ws_alpha[:7], repeat=k):
             add("ws", "".join(tup))
